@@ -33,6 +33,54 @@ def show_state(st, only_steps=False):
         print("       deps:", " ".join(f"{a}->{b}{'*' if d else ''}" for a, b, d in st["deps"]))
 
 
+def replay_layer_g(rep, case):
+    """Layer G replays: execute the stored action sequence (or configuration) on the real code again
+    and print what the code does after every action; the recorded subject holds what the
+    specification expected at the failing action."""
+    import asyncio
+    import re
+
+    tid = rep.get("tid") or ""
+    kind = re.match(r"[a-z]+", tid).group(0) if re.match(r"[a-z]+", tid) else ""
+    print("recorded:", rep.get("clause"))
+    print("subject :", str(rep.get("subject"))[:3000])
+    with Scratch():
+        if kind == "sc":
+            from checks import schedcache as mod
+            states = asyncio.run(mod.execute(case["acts"], case["enabled"]))
+        elif kind == "pl":
+            from checks import plans as mod
+            states = asyncio.run(mod.execute(case["acts"], case["enabled"]))
+        elif kind == "rc":
+            from checks import recycle as mod
+            states = asyncio.run(mod.execute(case["acts"], case["enabled"]))
+        elif kind == "fs":
+            from checks import filestep as mod
+            states = asyncio.run(mod.execute(case["inp"], case["acts"], case["enabled"]))
+        elif kind == "wsets":
+            from checks import watchsets as mod
+            states = asyncio.run(mod.execute(case["acts"], case["enabled"]))
+        elif kind == "cl":
+            from checks import cleanup as mod
+            print("configuration:", json.dumps(case["config"], sort_keys=True))
+            print("code result  :", json.dumps(asyncio.run(mod.execute(case["config"])), sort_keys=True)[:3000])
+            return 0
+        elif kind == "df":
+            print("sequence:", json.dumps(case["case"], sort_keys=True)[:3000])
+            print("(the consumer's view of the overlap with its producer is an argument computed by the specification;")
+            print(" run `python -m checks.defer --tier quick` to evaluate the sequence again with TLC)")
+            return 0
+        else:
+            print("unknown Layer G replay kind:", tid)
+            return 2
+    acts = case["acts"]
+    for k, (a, en) in enumerate(zip(acts, case["enabled"])):
+        print(k, json.dumps(a, sort_keys=True), "" if en else "(not enabled: skipped)")
+        if k < len(states):
+            print("     code:", json.dumps(states[k], sort_keys=True)[:1500])
+    return 0
+
+
 def main(argv=None):
     ap = argparse.ArgumentParser()
     ap.add_argument("file")
@@ -43,6 +91,8 @@ def main(argv=None):
     with open(args.file) as fh:
         rep = json.load(fh)
     case = rep["case"]
+    if case is not None and "project" not in case and ("acts" in case or "config" in case or "case" in case):
+        return replay_layer_g(rep, case)
     if case is None or "project" not in case:
         print("replay file carries no executable case; content:")
         print(json.dumps(rep, indent=1)[:4000])
